@@ -236,6 +236,9 @@ func runC15(c *Ctx) {
 	connectErrorResetsState(c, "C15-D8")
 	c.Rule("C15-D9", "a reconnection cycle that is given up leaves the 'reconnecting' state (F67, known finding): in Manager.reconnect every path from `state = reconnecting` to a return sets the state back to disconnected or goes on to connect", 1)
 	abandonedReconnectLeavesState(c, "C15-D9")
+	c.Rule("C15-D10", "overlapping opens share one reconnection round (F68, known finding): the test of the back-off counter that licenses a round after a failed open is made inside the connectMu critical section "+
+		"a round holds from start to end — otherwise an open that waited behind a whole round finds the counter reset and starts a second one (2×ReconnectionAttempts attempts, reconnect_failed twice)", 1)
+	overlappingOpensShareOneRound(c, "C15-D10")
 	c15EmitterModifiers(c)
 
 	c.Rule("C15-D4", "a new outage starts a new back-off cycle, and volatile means volatile everywhere: Manager.onClose resets the attempt counter on every path — whatever the reason and whether or not it starts a reconnect "+
